@@ -19,6 +19,7 @@ def main():
     ap.add_argument('--tier', default=os.environ.get('VERIF_TIER', 'quick'), choices=['quick', 'thorough'])
     ap.add_argument('--replay')
     ap.add_argument('--fresh-digest', type=int)
+    ap.add_argument('--exec-indices')
     a = ap.parse_args()
     if a.prop not in kernel.ENGINES:
         print('unknown property', a.prop)
@@ -28,6 +29,17 @@ def main():
         seed = int(os.environ.get('VERIF_SEED', '0') or 0)
         res = kernel.execute_guarded(engine, kernel.make_scenario(engine, a.prop, a.tier, seed, a.fresh_digest))
         print('FRESH-DIGEST', res['digest'] if not res.get('harness') else 'error:' + str(res.get('harness'))[:200])
+        return 0
+    if a.exec_indices is not None:
+        # used by the kernel to execute scenarios in an interpreter started with other flags (python -O)
+        import json
+        engine = kernel.load_engine(a.prop)
+        seed = int(os.environ.get('VERIF_SEED', '0') or 0)
+        for idx in [int(x) for x in a.exec_indices.split(',') if x]:
+            res = kernel.execute_guarded(engine, kernel.make_scenario(engine, a.prop, a.tier, seed, idx))
+            print('EXEC-RESULT ' + json.dumps({'index': idx, 'digest': res['digest'], 'harness': res.get('harness'), 'optimize': sys.flags.optimize,
+                                               'violations': [{'property': v['property'], 'oracle': v['oracle'], 'detail': v.get('detail', '')[:2000]}
+                                                              for v in res['violations']]}), flush=True)
         return 0
     if a.replay:
         return kernel.do_replay(a.prop, a.replay)
